@@ -50,6 +50,18 @@ def tag(exc, *c):
     return exc
 
 
+# Every package error class that the call site does not treat specially must act as a plain
+# failure; the doubles rotate through them so that a handler keyed on a subclass is noticed.
+GENERIC_ERRORS = [error.PySmiReaderError, error.PySmiReaderFileNotModifiedError, error.PySmiError,
+                  error.PySmiCodegenError, error.PySmiSearcherError, error.PySmiSyntaxError,
+                  error.PySmiWriterError, error.PySmiSemanticError, error.PySmiLexerError]
+
+
+def generic_error(salt, msg, exclude=()):
+    classes = [c for c in GENERIC_ERRORS if c not in exclude]
+    return classes[salt % len(classes)](msg)
+
+
 class Source:
     def __init__(self, i, table, log):
         self.i, self.table, self.log = i, table, log
@@ -61,13 +73,13 @@ class Source:
         if a == 'nf':
             raise error.PySmiReaderFileNotFoundError('no %s' % mibname, reader=self)
         if a == 'err':
-            raise tag(error.PySmiReaderError('reader error'), 'get', self.i, n)
+            raise tag(generic_error(self.i * 7 + n, 'reader error'), 'get', self.i, n)
         _, alias, mtime, text = a
         return (MibInfo(path='src%d:/%s' % (self.i, nm(alias)), file=nm(alias) + '.mib', name=nm(alias), mtime=mtime),
                 Text('T%d' % text))
 
     def __str__(self):
-        return 'Source%d' % self.i
+        return 'Source'      # like real readers, str() does not identify the instance
 
 
 class Parser:
@@ -82,7 +94,7 @@ class Parser:
         self.log.add('parse', t)
         a = self.table.get(str(t), 'err')
         if a == 'err':
-            raise tag(error.PySmiSyntaxError('syntax error'), 'parse', t)
+            raise tag(generic_error(t, 'syntax error'), 'parse', t)
         return [('tree', k) for k in a[1]]
 
 
@@ -95,7 +107,7 @@ class SymGen:
         self.log.add('sym', k)
         a = self.table.get(str(k), 'err')
         if a == 'err':
-            raise tag(error.PySmiSemanticError('semantic error'), 'sym', k)
+            raise tag(generic_error(k + 3, 'semantic error'), 'sym', k)
         return MibInfo(name=nm(a[1]), imported=tuple(nm(x) for x in a[2])), {}
 
 
@@ -108,13 +120,16 @@ class CodeGen:
         self.log.add('gen', k, bool(kw.get('genTexts')))
         a = self.table.get(str(k), 'err')
         if a == 'err':
-            raise tag(error.PySmiCodegenError('codegen error'), 'gen', k, bool(kw.get('genTexts')))
+            raise tag(generic_error(k + 5, 'codegen error'), 'gen', k, bool(kw.get('genTexts')))
         return MibInfo(oid=None, oids=(), identity=None, revision=None, enterprise=None, compliance=()), 'D%d' % a[1]
 
 
 class Searcher:
     def __init__(self, i, table, log):
         self.i, self.table, self.log = i, table, log
+
+    def __str__(self):
+        return 'Searcher'
 
     def fileExists(self, mibname, mtime, rebuild=False):
         n = unnm(mibname)
@@ -125,13 +140,16 @@ class Searcher:
         if a == 'nm':
             raise error.PySmiFileNotModifiedError('fresh %s' % mibname, searcher=self)
         if a == 'err':
-            raise error.PySmiSearcherError('searcher error', searcher=self)
+            raise generic_error(self.i * 5 + n, 'searcher error')
         return
 
 
 class Borrower:
     def __init__(self, i, spec, log):
         self.i, self.spec, self.log = i, spec, log
+
+    def __str__(self):
+        return 'Borrower'
 
     def getData(self, mibname, **options):
         n = unnm(mibname)
@@ -142,7 +160,7 @@ class Borrower:
         if fl is not None and fl != g:
             a = 'err'
         if a == 'err':
-            raise error.PySmiReaderFileNotFoundError('nothing to borrow', reader=self)
+            raise generic_error(self.i * 3 + n + 1, 'nothing to borrow', exclude=()) if (self.i + n) % 2 else error.PySmiReaderFileNotFoundError('nothing to borrow', reader=self)
         _, alias, mtime, data = a
         return (MibInfo(path='bor%d:/%s' % (self.i, nm(alias)), file=nm(alias) + '.py', name=nm(alias), mtime=mtime),
                 'D%d' % data)
@@ -157,7 +175,7 @@ class Writer:
         d = int(data[1:])
         self.log.add('put', n, d, bool(dryRun))
         if not self.table.get(str(n), True):
-            raise tag(error.PySmiWriterError('writer error'), 'put', n, d, bool(dryRun))
+            raise tag(generic_error(n + 6, 'writer error'), 'put', n, d, bool(dryRun))
 
     def getData(self, name):
         return ''
